@@ -221,6 +221,9 @@ func harnessDir() string {
 	return "/verif/harness"
 }
 
+// HarnessDir is the directory of the harness sources (tools, runner template).
+func HarnessDir() string { return harnessDir() }
+
 func GoEnv() []string {
 	env := os.Environ()
 	env = append(env, "GOFLAGS=-mod=mod", "GOWORK=off", "GOPROXY=off", "GOSUMDB=off", "GOTOOLCHAIN=local")
